@@ -370,6 +370,10 @@ var verbsCommon = []string{"v", "v", "v", "s", "s", "d", "q", "x", "+v", "#v", "
 
 // format builds a format string for the given operands.
 func (g *gen) format(args []Val) string {
+	if len(args) > 0 && g.chance(0.06) {
+		// no directive at all: every operand is surplus (%!(EXTRA ...))
+		return g.lit()
+	}
 	var sb strings.Builder
 	for i := range args {
 		if g.chance(0.7) {
